@@ -34,11 +34,34 @@ def run(prog, tier) -> Result:
     from ..report import Violation
     MONEY_TID = "cls:Money"
 
+    gview = prog.method("QuantityMeta", "registered_converters")
+
+    def observe(I, cls):
+        """The registry as the public view shows it, oldest registration first."""
+        v = I.call_function(gview, [cls], {})
+        seq = I.models.iterate(v, None)
+        if seq is None:
+            raise AnalysisError("C12: registered_converters() of a concrete registry is not a concrete sequence")
+        return list(reversed(seq))
+
+    class Stack:
+        """What a scenario knows about the registry: its content before the operation under test (`items`) and,
+        recorded when the operation has finished or raised, afterwards (`after`)."""
+
+        def __init__(self, items):
+            self.items = items
+            self.after = None
+
     def mk_stack(c, money, n):
+        """A type whose registry holds convs[:n], built through the public register_converter from the state the
+        metaclass gives a new class."""
+        I = c.m.I
+        c.st.concrete_registries = True
         if money:
             c.m.special_type("Money")
             tid = MONEY_TID
             convs = [ObjV(mc_ci, f"conv{i}") for i in range(4)]
+            regf = prog.method("MoneyMeta", "register_converter")
         else:
             c.new_type("T", **FLAVORS["noref"])
             tid = c.st.tfind("T")
@@ -47,9 +70,30 @@ def run(prog, tier) -> Result:
                 cv = ConvV(f"conv{i}")
                 cv.concrete = True
                 convs.append(cv)
-        stack = ListV(list(convs[:n]))
-        c.st.cls_fields[(c.st.tfind(tid), "_converters")] = stack
-        return ClsV(tid), convs, stack
+            regf = prog.method("QuantityMeta", "register_converter")
+        cls = ClsV(tid)
+        try:
+            for cv in convs[:n]:
+                I.call_function(regf, [cls, cv], {})
+            got = observe(I, cls)
+        except AbsRaise as ar:
+            raise AnalysisError(f"C12: building a registry of {n} converters through register_converter raises {ar.exc.name}")
+        if not (len(got) == n and all(x is y for x, y in zip(got, convs[:n]))):
+            raise Infeasible        # registration / view themselves are wrong: reported by the cases on smaller stacks
+        stack = Stack(got)
+        c.st.c12_live = (I, cls, stack)
+        return cls, convs, stack
+
+    def finish(c):
+        I, cls, stack = c.st.c12_live
+        stack.after = observe(I, cls)
+
+    def guarded(c, fn):
+        """Run the operation under test; whatever happens, record the registry afterwards."""
+        try:
+            return fn()
+        finally:
+            finish(c)
 
     def same_list(items, want):
         return len(items) == len(want) and all(x is y for x, y in zip(items, want))
@@ -80,15 +124,15 @@ def run(prog, tier) -> Result:
         def body_reg(I, c, n=n):
             cls, convs, stack = mk_stack(c, True, n)
             c.st.c12 = (stack, list(stack.items), convs)
-            return I.call_function(reg, [cls, convs[3]], {})
+            return guarded(c, lambda: I.call_function(reg, [cls, convs[3]], {}))
 
         def judge_regm(o):
             stack, before, convs = o.state.c12
             if o.kind == "raise":
                 return (exc_sig(o), "contract: push")
-            if not same_list(stack.items, before + [convs[3]]):
+            if not same_list(stack.after, before + [convs[3]]):
                 return ("registration does not put the converter on top of the unchanged stack",
-                        f"before {before!r}, after {stack.items!r}")
+                        f"before {before!r}, after {stack.after!r}")
             return None
         run_stack("R12.1", "MoneyMeta.register_converter", f"register on a stack of {n}", body_reg, judge_regm)
 
@@ -97,14 +141,14 @@ def run(prog, tier) -> Result:
             c.st.c12 = (stack, list(stack.items), convs)
             other = ConvV("generic")
             other.is_money = False
-            return I.call_function(reg, [cls, other], {})
+            return guarded(c, lambda: I.call_function(reg, [cls, other], {}))
 
         def judge_regx(o):
             stack, before, convs = o.state.c12
             if o.kind != "raise" or o.exc.name != "TypeError":
                 return ("non-money converter accepted for Money", o.brief())
-            if not same_list(stack.items, before):
-                return ("mutation on a rejecting path", f"before {before!r}, after {stack.items!r}")
+            if not same_list(stack.after, before):
+                return ("mutation on a rejecting path", f"before {before!r}, after {stack.after!r}")
             return None
         run_stack("R12.1", "MoneyMeta.register_converter", f"register another callable on a stack of {n}", body_regx, judge_regx)
 
@@ -116,22 +160,22 @@ def run(prog, tier) -> Result:
                 cls, convs, stack = mk_stack(c, True, n)
                 c.st.c12 = (stack, list(stack.items), convs)
                 target = {"top": lambda: stack.items[-1], "below": lambda: stack.items[0], "absent": lambda: convs[3]}[which]()
-                return I.call_function(rem, [cls, target], {})
+                return guarded(c, lambda: I.call_function(rem, [cls, target], {}))
 
             def judge_rem(o, which=which):
                 stack, before, convs = o.state.c12
                 if which == "top":
                     if o.kind == "raise":
                         return ("most recent converter cannot be unregistered", exc_sig(o))
-                    if not same_list(stack.items, before[:-1]):
+                    if not same_list(stack.after, before[:-1]):
                         return ("unregistering the most recent converter does not pop exactly it",
-                                f"before {before!r}, after {stack.items!r}")
+                                f"before {before!r}, after {stack.after!r}")
                     return None
                 if o.kind != "raise":
                     return ("a converter other than the most recent one was unregistered without error",
-                            f"before {before!r}, after {stack.items!r}")
-                if not same_list(stack.items, before):
-                    return ("mutation on a rejecting path", f"before {before!r}, after {stack.items!r}")
+                            f"before {before!r}, after {stack.after!r}")
+                if not same_list(stack.after, before):
+                    return ("mutation on a rejecting path", f"before {before!r}, after {stack.after!r}")
                 return None
             run_stack("R12.1", "MoneyMeta.remove_converter", f"remove {which} converter, stack of {n}", body_rem, judge_rem)
 
@@ -141,8 +185,9 @@ def run(prog, tier) -> Result:
         cls, convs, stack = mk_stack(c, True, 0)
         for cv in (convs[0], convs[1], convs[0]):
             I.call_function(reg, [cls, cv], {})
+        stack.items = observe(I, cls)
         c.st.c12 = (stack, list(stack.items), convs)
-        return I.call_function(rem, [cls, convs[0]], {})
+        return guarded(c, lambda: I.call_function(rem, [cls, convs[0]], {}))
 
     def judge_dup(o):
         stack, before, convs = o.state.c12
@@ -150,9 +195,9 @@ def run(prog, tier) -> Result:
             return ("most recent converter cannot be unregistered", exc_sig(o))
         if not same_list(before, [convs[0], convs[1], convs[0]]):
             return ("three registrations do not give a stack of three", repr(before))
-        if not same_list(stack.items, [convs[0], convs[1]]):
+        if not same_list(stack.after, [convs[0], convs[1]]):
             return ("unregistering a converter that is registered twice does not remove its most recent registration",
-                    f"before {before!r}, after {stack.items!r}")
+                    f"before {before!r}, after {stack.after!r}")
         return None
     run_stack("R12.1", "MoneyMeta.remove_converter", "remove the top converter, also registered further down", body_dup, judge_dup)
 
@@ -164,8 +209,8 @@ def run(prog, tier) -> Result:
             cls, convs, stack = mk_stack(c, True, n)
             me = convs[3]
             got = I.call_function(ent, [me], {})
-            inside = list(stack.items)
-            r = I.call_function(ext, [me, OpaqueV("exc-type"), OpaqueV("exc"), OpaqueV("tb")], {})
+            inside = observe(I, cls)
+            r = guarded(c, lambda: I.call_function(ext, [me, OpaqueV("exc-type"), OpaqueV("exc"), OpaqueV("tb")], {}))
             c.st.c12 = (stack, list(convs[:n]), inside, me, got, r)
             return r
 
@@ -177,8 +222,8 @@ def run(prog, tier) -> Result:
                 return ("__enter__ does not push self", f"inside the block: {inside!r}")
             if got is not me:
                 return ("__enter__ does not return the converter", repr(got))
-            if not same_list(stack.items, before):
-                return ("__exit__ does not restore the stack", f"before {before!r}, after {stack.items!r}")
+            if not same_list(stack.after, before):
+                return ("__exit__ does not restore the stack", f"before {before!r}, after {stack.after!r}")
             falsy = isinstance(r, NoneV) or (isinstance(r, BoolV) and not r.val)
             if not falsy:
                 return ("__exit__ swallows exceptions", repr(r))
@@ -188,7 +233,6 @@ def run(prog, tier) -> Result:
     # ---- R12.3 generic types
     greg = prog.method("QuantityMeta", "register_converter")
     grem = prog.method("QuantityMeta", "remove_converter")
-    gview = prog.method("QuantityMeta", "registered_converters")
     for n in (0, 1, 2):
         for which in ("new", "member"):
             if which == "member" and n < 1:
@@ -197,16 +241,16 @@ def run(prog, tier) -> Result:
             def body_g(I, c, n=n, which=which):
                 cls, convs, stack = mk_stack(c, False, n)
                 c.st.c12 = (stack, list(stack.items), convs)
-                return I.call_function(greg, [cls, convs[3] if which == "new" else stack.items[0]], {})
+                return guarded(c, lambda: I.call_function(greg, [cls, convs[3] if which == "new" else stack.items[0]], {}))
 
             def judge_g(o, which=which):
                 stack, before, convs = o.state.c12
                 if o.kind == "raise":
                     return (exc_sig(o), "")
                 want = before + [convs[3]] if which == "new" else before
-                if not same_list(stack.items, want):
+                if not same_list(stack.after, want):
                     return ("registering an already registered converter mutates the list" if which == "member"
-                            else "registration is not one append", f"before {before!r}, after {stack.items!r}")
+                            else "registration is not one append", f"before {before!r}, after {stack.after!r}")
                 return None
             run_stack("R12.3", "QuantityMeta.register_converter", f"register {which} converter, {n} registered", body_g, judge_g)
         for which in ("first", "last", "absent"):
@@ -217,25 +261,25 @@ def run(prog, tier) -> Result:
                 cls, convs, stack = mk_stack(c, False, n)
                 c.st.c12 = (stack, list(stack.items), convs)
                 target = {"first": lambda: stack.items[0], "last": lambda: stack.items[-1], "absent": lambda: convs[3]}[which]()
-                return I.call_function(grem, [cls, target], {})
+                return guarded(c, lambda: I.call_function(grem, [cls, target], {}))
 
             def judge_gr(o, which=which):
                 stack, before, convs = o.state.c12
                 if which == "absent":
                     if o.kind != "raise":
                         return ("removing an unregistered converter does not raise", o.brief())
-                    return None if same_list(stack.items, before) else ("mutation on a raising path", repr(stack.items))
+                    return None if same_list(stack.after, before) else ("mutation on a raising path", repr(stack.after))
                 if o.kind == "raise":
                     return (exc_sig(o), "a registered converter can be removed")
                 want = before[1:] if which == "first" else before[:-1]
-                if not same_list(stack.items, want):
-                    return ("removal does not take out exactly the given converter", f"before {before!r}, after {stack.items!r}")
+                if not same_list(stack.after, want):
+                    return ("removal does not take out exactly the given converter", f"before {before!r}, after {stack.after!r}")
                 return None
             run_stack("R12.3", "QuantityMeta.remove_converter", f"remove {which} converter, {n} registered", body_gr, judge_gr)
 
     def body_view(I, c):
         cls, convs, stack = mk_stack(c, False, 3)
-        v = I.call_function(gview, [cls], {})
+        v = guarded(c, lambda: I.call_function(gview, [cls], {}))
         c.st.c12 = (stack, list(stack.items), I.models.iterate(v, None))
         return v
 
@@ -245,7 +289,7 @@ def run(prog, tier) -> Result:
         stack, before, seen = o.state.c12
         if seen is None or not same_list(seen, list(reversed(before))):
             return ("registered_converters is not the reversed list", repr(seen))
-        if not same_list(stack.items, before):
+        if not same_list(stack.after, before):
             return ("view mutates the list", "")
         return None
     run_stack("R12.3", "QuantityMeta.registered_converters", "three registered converters", body_view, judge_view)
@@ -272,7 +316,7 @@ def run(prog, tier) -> Result:
                 else:
                     since = len(c.st.effects)
                     r = I.call_function(ea, [q, u], {})
-                    log.append((list(stack.items), consulted(c.st, since), r))
+                    log.append((observe(I, cls), consulted(c.st, since), r))
             c.st.c12 = log
             return NONE
         return body
@@ -366,7 +410,9 @@ def run(prog, tier) -> Result:
     # ---- R12.4 ownership
     writes = inventory(prog)
     cg = CallGraph(prog)
-    n = len(check_ownership(res, "R12.4", writes, "_converters", {
+    from ..anchors import converter_registry_attr
+    reg_attr = converter_registry_attr(prog)
+    n = len(check_ownership(res, "R12.4", writes, reg_attr, {
         "QuantityMeta.__init__": {"="},
         # what the mutators do to the list is decided by the typestate judges above (R12.1-R12.3)
         "QuantityMeta.register_converter": {"*"}, "QuantityMeta.remove_converter": {"*"},
@@ -377,7 +423,7 @@ def run(prog, tier) -> Result:
     for fi in prog.all_functions():
         for nd in ast.walk(fi.node):
             if isinstance(nd, ast.Return) and nd.value is not None and isinstance(nd.value, ast.Attribute) \
-                    and nd.value.attr == "_converters":
+                    and nd.value.attr == reg_attr:
                 leaks.append(fi.qualname)
     res.ob("R12.4", "quantity", "converter list never returned by reference", not leaks, str(leaks),
            sig="converter list leaked", nontrivial=False)
